@@ -5,6 +5,9 @@ STREAMS = {
     # cases = whole multi-instance, multi-epoch scenarios (30–120 events quick, up to 280 thorough)
     # vector index alone: forkers of ANY weight, 2-3 indexes with different parents-first orders, all pairs on small DAGs
     "vec": {"quick": 400, "thorough": 6000, "trivial": ["bad-op", "na", "ok"], "keep_ops": ["vals", "idx", "ev"]},
+    # the same op language and driver as `cons`, another generator: dense gossip with one validator hidden for a few rounds,
+    # which then catches up (delayed decisions, several frames decided by one multi-frame root, seals at frames 1-4)
+    "cons-hider": {"quick": 250, "thorough": 2500, "run_as": "cons", "trivial": ["bad-op", "na", "unknown-event"], "timeout": 3000, "keep_ops": ["vals", "seal", "inst"]},
     "cons": {"quick": 300, "thorough": 1500, "trivial": ["bad-op", "na", "unknown-event"], "timeout": 3000, "keep_ops": ["vals", "seal", "inst"]},
 }
 
@@ -24,7 +27,7 @@ _NOTE = ("Trusted: Lean kernel; harness + diff; the reference implementation is 
 
 
 def _p(claim, props=None, level="other", streams=None):
-    d = {"props": props or [], "streams": streams or ["cons"], "claim": claim, "note": _NOTE, "level": level,
+    d = {"props": props or [], "streams": (streams or ["cons"]) + ["cons-hider"], "claim": claim, "note": _NOTE, "level": level,
          "explanation": _REF + _MODEL + _STREAM,
          "trusted": ["reference implementation Spec/Lachesis.lean (reading of the rule text)", "harness stream cons"],
          "assumptions": ["cheaters hold < 1/3 of the weight in generated scenarios"]}
